@@ -525,10 +525,21 @@ theorem decode_cont (d : Dec) (q : Pkt) (u : Bytes) (hsl : 1 ≤ d.par.sl)
   simp only [f1, ↓reduceIte, f2, f3, f4, f5, hz, hs, hle, List.map_cons, List.map_nil, List.flatten_cons,
     List.flatten_nil, List.append_nil, Nat.lt_irrefl, List.take_length, Dec.reset, ne_eq, not_true_eq_false]
 
-theorem fragPayload_eq (p : Params) (chunk : Bytes) :
+theorem fragPayload_eq (p : Params) (chunk : Bytes) (hs : chunk.length < 2 ^ p.sl) :
     fragPayload p chunk =
       be16 (auHeaders p true [chunk]).length ++ pack (auHeaders p true [chunk]) ++ [chunk].flatten := by
-  simp [fragPayload, auHeaders, bitsOf_length]
+  have hl : (auHeaders p true [chunk]).length = p.sl + p.il := by
+    simp [auHeaders, bitsOf_length]
+  rw [fragPayload, hdrBytes_eq_pack p [chunk] (by simpa using hs), hl]
+  simp
+
+/-- for AU sizes the size field can hold, the aggregated packet carries the specified header bits -/
+theorem writeAggregated_pack (c : EncCfg) (p : Params) (b : List Bytes) (ts : UInt32) (sq : UInt16)
+    (hs : ∀ au ∈ b, au.length < 2 ^ p.sl) :
+    writeAggregated c p b ts sq =
+      [{ pt := c.pt, seq := sq, ts := ts, ssrc := c.ssrc, marker := true,
+         payload := be16 (auHeaders p true b).length ++ pack (auHeaders p true b) ++ b.flatten }] := by
+  rw [writeAggregated, hdrBytes_eq_pack p b hs, auHeaders_length, hdrBitsLen_eq]
 
 /-- valid AUs pass `removeADTS` unchanged when the decoder is not in ADTS mode -/
 theorem removeADTS_valid (d : Dec) (b : List Bytes) (hm : d.adtsMode = false)
@@ -560,7 +571,7 @@ theorem run_rest (c : EncCfg) (ts : UInt32) (avail : Nat) (hav : 0 < avail) (k :
     have hr : 0 < rest.length := by omega
     have hd := decode_cont d { pt := c.pt, seq := sq, ts := ts, ssrc := c.ssrc, marker := true,
                                payload := fragPayload d.par rest } rest hsl ⟨hr, by omega, by omega⟩ h16
-      (fragPayload_eq _ _) hpos hseq.symm (by omega)
+      (fragPayload_eq _ _ (by omega)) hpos hseq.symm (by omega)
     simp only [Bool.not_true, Bool.false_eq_true, ↓reduceIte] at hd
     have e : d.size + rest.length = totalLen (d.fragments ++ [rest]) := by simp [hsz]
     rw [e, joinFragments_exact] at hd
@@ -578,7 +589,7 @@ theorem run_rest (c : EncCfg) (ts : UInt32) (avail : Nat) (hav : 0 < avail) (k :
     have htake : (rest.take avail).length = avail := by simp [List.length_take]; omega
     have hd := decode_cont d { pt := c.pt, seq := sq, ts := ts, ssrc := c.ssrc, marker := false,
                                payload := fragPayload d.par (rest.take avail) } (rest.take avail) hsl
-      ⟨by omega, by omega, by omega⟩ h16 (fragPayload_eq _ _) hpos hseq.symm (by omega)
+      ⟨by omega, by omega, by omega⟩ h16 (fragPayload_eq _ _ (by omega)) hpos hseq.symm (by omega)
     simp only [Bool.not_false, ↓reduceIte] at hd
     obtain ⟨d', hrun, hclean, hpar, hfp⟩ := ih (sq + 1) (rest.drop avail)
       { d with size := d.size + (rest.take avail).length, fragments := d.fragments ++ [rest.take avail],
@@ -614,7 +625,8 @@ theorem run_batch (c : EncCfg) (p : Params) (hc : ValidCfg c p) (b : List Bytes)
       b hsl hb.ne (fun u hu => (hb.units u hu).1) hb.h16 rfl hz rfl
     rw [removeADTS_valid d.reset _ hadts (fun au hau => (hb.units au hau).2)] at hd
     refine ⟨{ d.reset with firstAUParsed := true }, 0, ?_, ⟨rfl, rfl, hadts⟩, rfl, rfl⟩
-    simp only [writeAggregated, runDec, runDecGen, hd]
+    rw [writeAggregated_pack c d.par b ts sq (fun u hu => (hb.units u hu).1.2.1)]
+    simp only [runDec, runDecGen, hd]
     simp
   unfold writeBatch
   split
@@ -642,7 +654,7 @@ theorem run_batch (c : EncCfg) (p : Params) (hc : ValidCfg c p) (b : List Bytes)
         have hd := decode_agg d { pt := c.pt, seq := sq, ts := ts, ssrc := c.ssrc, marker := true,
                                   payload := fragPayload d.par au }
           [au] hsl (by simp) (by intro u hu; simp at hu; subst hu; exact ⟨hau0, hau1, hau2⟩) h16
-          (fragPayload_eq _ _) hz rfl
+          (fragPayload_eq _ _ hau1) hz rfl
         rw [removeADTS_valid d.reset _ hadts (by intro x hx; simp at hx; subst hx; exact hausync)] at hd
         refine ⟨{ d.reset with firstAUParsed := true }, 0, ?_, ⟨rfl, rfl, hadts⟩, rfl, rfl⟩
         simp only [emitFrag, runDec, runDecGen, hd]
@@ -655,7 +667,7 @@ theorem run_batch (c : EncCfg) (p : Params) (hc : ValidCfg c p) (b : List Bytes)
         have htake : (au.take avail).length = avail := by simp [List.length_take]; omega
         have hd := decode_first d { pt := c.pt, seq := sq, ts := ts, ssrc := c.ssrc, marker := false,
                                     payload := fragPayload d.par (au.take avail) }
-          (au.take avail) hsl ⟨by omega, by omega, by omega⟩ h16 (fragPayload_eq _ _) hz rfl
+          (au.take avail) hsl ⟨by omega, by omega, by omega⟩ h16 (fragPayload_eq _ _ (by omega)) hz rfl
         obtain ⟨d', hrun, hclean, hpar', hfp⟩ := run_rest c ts avail hpos k (sq + 1) (au.drop avail)
           { d.reset with size := (au.take avail).length, fragments := [au.take avail], nextSeq := sq + 1 }
           hsl h16 (by simp) (by simp only [htake]; omega) rfl
@@ -1054,11 +1066,11 @@ theorem c07_flush_unsniffed (e : Enc) (aus : List Bytes) (d : Dec) (hc : ValidCf
       obtain ⟨d1, n, hr, hc1, hp1, _⟩ := run_batch e.cfg e.par hc b (hbv b (by rw [hparts]; simp [hb])) ts sq d0 hd0.1 hd0.2
       exact ⟨d1, n, hr, hc1, hp1⟩)
   refine ⟨d', outs, ?_, hcl, h4, h3⟩
+  have hpk := writeAggregated_pack e.cfg e.par b1 0 e.seq (fun u hu => (hb1.units u hu).1.2.1)
   unfold pkts
-  rw [hparts, writeAllOk, runDec, runDecGen_append, hagg]
-  simp only [writeAggregated, runDecGen, hd]
-  rw [hagg] at h1
-  simp only [writeAggregated] at h1
+  rw [hparts, writeAllOk, runDec, runDecGen_append, hagg, hpk]
+  simp only [runDecGen, hd]
+  rw [hagg, hpk] at h1
   rw [h1]
   rfl
 
